@@ -730,6 +730,11 @@ class Engine:
             if not ii:
                 return None
             return int_const(int(t["int"]), ii[0], ii[1])
+        if "fnptr" in t:
+            f = t["fnptr"]
+            class _NoSub:  # a constant's function pointers are fully monomorphic
+                sub = {}
+            return Fn(frozenset([("item", f["path"], self._fkey(f, _NoSub))]))
         if "bytes" in t and "agg" not in t:
             data = bytes(t["bytes"])
             base = "const:%s" % data.hex()
